@@ -12,15 +12,20 @@ Definition held := list string.
 Fixpoint remove1 (i : string) (h : held) : held :=
   match h with [] => [] | x :: r => if String.eqb x i then r else x :: remove1 i r end.
 
-Definition lock_step (h : held) (e : ev) (x : ans) : option held :=
+(* strict = true: the full discipline.  strict = false: the counting variant that tolerates re-taking an id
+   already held (it is pushed a second time and must be released a second time): every other clause still
+   applies, so it states "released exactly once, never unlocked when not held, Database only under a lock,
+   nothing leaked" for code whose only defect is the re-entrant Lock of finding F2b. *)
+Definition lock_step_gen (strict : bool) (h : held) (e : ev) (x : ans) : option held :=
   match e with
-  | ELock i => if mem i h then None                         (* retaken while this request holds it *)
+  | ELock i => if strict && mem i h then None                 (* retaken while this request holds it *)
                else match x with AOk => Some (i :: h) | _ => Some h end
   | EUnlock i => if mem i h then Some (remove1 i h) else None   (* unlock of a lock not held *)
   | EDb op _ => if String.eqb op "NewID" then Some h
                 else match h with [] => None | _ => Some h end   (* Database access without a lock *)
   | _ => Some h
   end.
+Definition lock_step := lock_step_gen true.
 Definition lock_final (h : held) : bool := match h with [] => true | _ => false end.
 
 (* ---------------- C07: nothing before authentication / block check ---------------- *)
